@@ -427,7 +427,8 @@ def _pid_gone(pid):
 
 def model_requests(spec, fix):
     mx = spec["max_nbytes"]
-    out = [f"C RESET {1 if fix else 0} {'-' if mx is None else mx}"]
+    out = [" ".join(["C RESET", "1" if fix else "0", "-" if mx is None else str(mx), str(spec["n_parallel"])]
+                    + [str(k) for k in spec["pool_ks"]])]
     for op in spec["ops"]:
         n = op["op"]
         if n in ("configure", "spawn", "terminate", "poolConfigure", "poolTerminate"):
@@ -454,10 +455,10 @@ def model_requests(spec, fix):
 
 def _parse_step(rep):
     parts = [p.strip() for p in rep.split("|")]
-    if len(parts) != 4:
+    if len(parts) != 6 or parts[5] not in ("0", "1"):
         raise core.InfraError(f"c20 client: driver reply {rep!r}")
     return dict(status=parts[0], reqs=[x for x in parts[1].split(";") if x], folders=sorted(x for x in parts[2].split(",") if x),
-                files=sorted(x for x in parts[3].split(",") if x))
+                files=sorted(x for x in parts[3].split(",") if x), bad=sorted(x for x in parts[4].split(",") if x), dup=parts[5] == "1")
 
 
 def has_fix(repo):
